@@ -836,3 +836,11 @@ def _run(ctx):
         "one reader per session at a time (superseded requests are cancelled by handleGetMessages); pings ignored",
         "model ids are dense (k = 1,2,..); the harness maps them to sparse and dense real ids (stride 1..10)",
     ]
+
+    # The resume protocol skips messages BY POSITION inside a batch, so it also relies on the state machine
+    # numbering the replies of a batch 1..n without gaps: that predicate (ReplyIdsArePositions) is evaluated
+    # by the IRC-layer engine on every reply batch the real state machine produced.
+    if not getattr(ctx, "replay", None) and not getattr(ctx, "selftest", False):
+        from checks import irc_common
+        irc_common.attach(ctx, "C04")
+        ctx.assumptions.append("reply numbering of the real state machine checked by the IRC-layer engine (irc_common.attach)")
